@@ -1,6 +1,7 @@
-(* ImpFactsCells.v - functions over structs and arrays of pointers, from the source.  The cell heap
-   (pseudo-variable "$cells", Imp.v) holds one block per struct / pointer array; strings stay in the
-   byte memory.  First the metadata list (src/metadata.c): creation, freezing, counting, lookup by name. *)
+(* ImpFactsCells.v - what the proofs about functions over structs and arrays of pointers share: the cell heap
+   (pseudo-variable "$cells", Imp.v) holds one block per struct / pointer array; strings stay in the byte memory.
+   The functions themselves: ImpFactsMd.v (metadata lists), ImpFactsSlice.v (value arrays, column slices),
+   ImpFactsDestroy.v (sbdf_obj_destroy, sbdf_va_destroy), ImpFactsEq.v (sbdf_obj_eq). *)
 From Sbdf Require Import ImpCall Gen.Prog Gen.Consts Base BaseFacts ImpFacts ImpFacts7 ImpFactsFrame ImpFactsCmp ImpFactsHeap ImpFactsRead.
 From Coq Require Import ZifyBool.
 Local Open Scope Z_scope.
@@ -24,53 +25,6 @@ Definition fr (vs : list (string * val)) (bv : val) (k : Z) (sx : list Z) (h : h
 (* a NUL-terminated string at offset p of the memory *)
 Definition cstr_at (m : list Z) (p : Z) (s : list Z) : Prop := 0 <= p <= zlen m /\ cstr_l (skipn (Z.to_nat p) m) = Some s.
 
-(* the entries of a metadata list starting at pointer p (already read at pointer type): their names *)
-Fixpoint md_list (h : heap) (m : list Z) (p : val) (names : list (list Z)) : Prop :=
-  match names with
-  | [] => p = VNull
-  | nm :: rest => exists b nx np vv dv, p = VCell b 0 /\ nth_error h b = Some (Some [nx; VPtr RIn np; vv; dv]) /\ cstr_at m np nm /\ md_list h m (as_ptr nx) rest
-  end.
-
-(* a metadata head at block hb: first entry, modifiable flag *)
-Definition md_head (h : heap) (m : list Z) (hb : nat) (names : list (list Z)) (modifiable : Z) : Prop :=
-  exists first, nth_error h hb = Some (Some [first; VInt modifiable]) /\ md_list h m (as_ptr first) names.
-
-Section Md.
-Variables (bv : val) (k : Z) (sx : list Z) (m o : list Z).
-
-(* ---- sbdf_md_cnt ---- *)
-Lemma md_cnt_loop h hd names : forall p r, md_list h m p names -> 0 <= r -> r + zlen names <= int_max ->
-  bsE prog_env (SWhile (EVar "t") (SSeq (SExpr (EPreInc "result")) (SExpr (EAssign "t" (ECellLoad (EVar "t") (EConst 0) true)))))
-    (fr [("head"%string, hd); ("result"%string, VInt r); ("t"%string, p)] bv k sx h m o)
-    (ONormal (fr [("head"%string, hd); ("result"%string, VInt (r + zlen names)); ("t"%string, VNull)] bv k sx h m o)).
-Proof.
-  induction names as [|nm rest IH]; intros p r Hl Hr Hmax; unfold fr.
-  - cbn [md_list] in Hl. subst p. change (zlen (@nil (list Z))) with 0. rewrite Z.add_0_r.
-    eapply bsE_while_f; [evc; reflexivity|reflexivity].
-  - cbn [md_list] in Hl. destruct Hl as (b & nx & np & vv & dv & -> & Hb & Hs & Hrest).
-    assert (Hz : zlen (nm :: rest) = 1 + zlen rest) by (unfold zlen; cbn [List.length]; lia). rewrite Hz in *.
-    pose proof (zlen_nonneg rest) as Pr. unfold int_max in *.
-    eapply bsE_while_t; [evc; reflexivity|reflexivity| |].
-    + eapply bsE_seq; [eapply bsE_expr; evc; unfold incr; chk7; evc; reflexivity|].
-      eapply bsE_expr. evc. chk7. evc. cellrw Hb. evc. reflexivity.
-    + replace (r + (1 + zlen rest)) with ((r + 1) + zlen rest) by lia. apply (IH (as_ptr nx) (r + 1) Hrest); lia.
-Qed.
-
-
-Lemma md_cnt_bs h hb names modif r0 t0 : md_head h m hb names modif -> zlen names <= int_max ->
-  bsE prog_env (fbody prog_sbdf_md_cnt) (fr [("head"%string, VCell hb 0); ("result"%string, r0); ("t"%string, t0)] bv k sx h m o)
-    (OReturn (VInt (zlen names)) (fr [("head"%string, VCell hb 0); ("result"%string, VInt (zlen names)); ("t"%string, VNull)] bv k sx h m o)).
-Proof.
-  intros (first & Hb & Hl) Hmax. cbn [fbody prog_sbdf_md_cnt]. unfold fr.
-  eapply bsE_seq; [eapply bsE_decl0; evc; reflexivity|]. eapply bsE_seq; [eapply bsE_decl1; [evc; chk7; reflexivity|evc; reflexivity]|].
-  eapply bsE_seq; [eapply bsE_if; [evc; reflexivity|reflexivity|apply bsE_skip]|].
-  eapply bsE_seq.
-  - eapply bsE_seq; [eapply bsE_expr; evc; chk7; evc; cellrw Hb; evc; reflexivity|].
-    apply (md_cnt_loop h (VCell hb 0) names (as_ptr first) 0 Hl); lia.
-  - eapply bsE_return. evc. reflexivity.
-Qed.
-
-(* ---- sbdf_md_exists ---- *)
 Lemma lexcmp_l_eq a : forall b, lexcmp_l a b = 0 <-> a = b.
 Proof.
   induction a as [|x a IH]; intros [|y b]; cbn [lexcmp_l]; try (split; [discriminate|discriminate]); [split; reflexivity|].
@@ -87,143 +41,6 @@ Proof.
   rewrite andb_true_iff, IH, Z.eqb_eq. split; [intros [-> ->]; reflexivity|intros [= -> ->]; split; reflexivity].
 Qed.
 
-Lemma md_exists_loop h hd q name names : forall p, md_list h m p names -> cstr_at m q name ->
-  exists tv, bsE prog_env (SWhile (EVar "t") (SSeq (SIf (ELNot (EStrcmp (EVar "name") (ECellLoad (EVar "t") (EConst 1) true))) (SReturn (EConst (1))) SSkip)
-                                       (SExpr (EAssign "t" (ECellLoad (EVar "t") (EConst 0) true)))))
-    (fr [("name"%string, VPtr RIn q); ("head"%string, hd); ("t"%string, p)] bv k sx h m o)
-    (if existsb (list_eqb name) names
-     then OReturn (VInt 1) (fr [("name"%string, VPtr RIn q); ("head"%string, hd); ("t"%string, tv)] bv k sx h m o)
-     else ONormal (fr [("name"%string, VPtr RIn q); ("head"%string, hd); ("t"%string, tv)] bv k sx h m o)).
-Proof.
-  induction names as [|nm rest IH]; intros p Hl Hq; unfold fr.
-  - cbn [md_list] in Hl. subst p. cbn [existsb]. exists VNull. eapply bsE_while_f; [evc; reflexivity|reflexivity].
-  - cbn [md_list] in Hl. destruct Hl as (b & nx & np & vv & dv & -> & Hb & Hs & Hrest).
-    destruct Hq as (Hq0 & Hq1). destruct Hs as (Hs0 & Hs1).
-    assert (CMP : eval (ELNot (EStrcmp (EVar "name") (ECellLoad (EVar "t") (EConst 1) true)))
-                    {| vars := [("name"%string, VPtr RIn q); ("head"%string, hd); ("t"%string, VCell b 0); (budget_var, bv); (fail_var, VInt k); (strm_var, VBytes sx); (cells_var, VHeap h)]; inb := m; outb := o |}
-                  = Some (VInt (b2z (negb (negb (lexcmp_l name nm =? 0)))),
-                          {| vars := [("name"%string, VPtr RIn q); ("head"%string, hd); ("t"%string, VCell b 0); (budget_var, bv); (fail_var, VInt k); (strm_var, VBytes sx); (cells_var, VHeap h)]; inb := m; outb := o |})).
-    { evc. chk7. evc. cellrw Hb. evc. cbn [inb]. rewrite zlen_length.
-      replace ((0 <=? q) && (q <=? zlen m) && (0 <=? np) && (np <=? zlen m)) with true by lia. rewrite Hq1, Hs1. reflexivity. }
-    cbn [existsb]. destruct (list_eqb name nm) eqn:E.
-    + apply list_eqb_spec in E. subst nm. cbn [orb]. exists (VCell b 0).
-      eapply bsE_while_ret; [evc; reflexivity|reflexivity|].
-      eapply bsE_seq_ret. eapply bsE_if; [cbn [app]; exact CMP| |].
-      * replace (lexcmp_l name name) with 0 by (symmetry; now apply lexcmp_l_eq). reflexivity.
-      * eapply bsE_return. evc. chk7. reflexivity.
-    + cbn [orb]. destruct (IH (as_ptr nx) Hrest (conj Hq0 Hq1)) as (tv & B). exists tv.
-      assert (Hne : lexcmp_l name nm <> 0). { intros C. apply lexcmp_l_eq in C. subst nm. assert (list_eqb name name = true) by now apply list_eqb_spec. congruence. }
-      destruct (existsb (list_eqb name) rest).
-      * eapply bsE_while_t; [evc; reflexivity|reflexivity| |exact B].
-        eapply bsE_seq; [eapply bsE_if; [cbn [app]; exact CMP|destruct (lexcmp_l name nm =? 0) eqn:Z0; [lia|reflexivity]|apply bsE_skip]|].
-        eapply bsE_expr. evc. chk7. evc. cellrw Hb. evc. reflexivity.
-      * eapply bsE_while_t; [evc; reflexivity|reflexivity| |exact B].
-        eapply bsE_seq; [eapply bsE_if; [cbn [app]; exact CMP|destruct (lexcmp_l name nm =? 0) eqn:Z0; [lia|reflexivity]|apply bsE_skip]|].
-        eapply bsE_expr. evc. chk7. evc. cellrw Hb. evc. reflexivity.
-Qed.
-
-Lemma md_exists_bs h hb q name names modif t0 : md_head h m hb names modif -> cstr_at m q name ->
-  exists tv, bsE prog_env (fbody prog_sbdf_md_exists) (fr [("name"%string, VPtr RIn q); ("head"%string, VCell hb 0); ("t"%string, t0)] bv k sx h m o)
-    (OReturn (VInt (if existsb (list_eqb name) names then 1 else 0)) (fr [("name"%string, VPtr RIn q); ("head"%string, VCell hb 0); ("t"%string, tv)] bv k sx h m o)).
-Proof.
-  intros (first & Hb & Hl) Hq. cbn [fbody prog_sbdf_md_exists].
-  destruct (md_exists_loop h (VCell hb 0) q name names (as_ptr first) Hl Hq) as (tv & B). exists tv. unfold fr in *.
-  eapply bsE_seq; [eapply bsE_decl0; evc; reflexivity|].
-  eapply bsE_seq; [eapply bsE_if; [evc; reflexivity|reflexivity|apply bsE_skip]|].
-  destruct (existsb (list_eqb name) names).
-  - eapply bsE_seq_ret. eapply bsE_seq; [eapply bsE_expr; evc; chk7; evc; cellrw Hb; evc; reflexivity|]. exact B.
-  - eapply bsE_seq; [eapply bsE_seq; [eapply bsE_expr; evc; chk7; evc; cellrw Hb; evc; reflexivity|exact B]|].
-    eapply bsE_return. evc. chk7. reflexivity.
-Qed.
-
-(* ---- sbdf_md_set_immutable: the flag cell of the head becomes 0, nothing else changes ---- *)
-Lemma md_set_immutable_bs h hb first modif : nth_error h hb = Some (Some [first; VInt modif]) ->
-  exists h', set_nth_v hb (Some [first; VInt 0]) h = Some h' /\
-  bsE prog_env (fbody prog_sbdf_md_set_immutable) (fr [("metadata"%string, VCell hb 0)] bv k sx h m o)
-    (OReturn (VInt SBDF_OK) (fr [("metadata"%string, VCell hb 0)] bv k sx h' m o)).
-Proof.
-  intros Hb. cbn [fbody prog_sbdf_md_set_immutable]. unfold fr.
-  assert (E : exists h', set_nth_v hb (Some [first; VInt 0]) h = Some h').
-  { clear -Hb. revert hb Hb. induction h as [|x h IH]; intros [|hb] Hb; cbn [nth_error] in Hb; try discriminate; cbn [set_nth_v]; [eexists; reflexivity|].
-    destruct (IH hb Hb) as (h' & ->). eexists; reflexivity. }
-  destruct E as (h' & E). exists h'. split; [exact E|].
-  eapply bsE_seq; [eapply bsE_if; [evc; reflexivity|reflexivity|apply bsE_skip]|].
-  eapply bsE_seq; [eapply bsE_expr; evc; chk7; evc; chk7; evc; cellrw Hb; rewrite E; evc; reflexivity|].
-  eapply bsE_return. evc. chk7. reflexivity.
-Qed.
-
-(* ---- sbdf_md_create: a fresh head with no entries, modifiable; (the source reports a failed calloc as ARGUMENT_NULL) ---- *)
-Lemma md_create_bs h outv t0 c0 : is_ptr outv ->
-  bsE prog_env (fbody prog_sbdf_md_create) (fr [("out"%string, outv); ("t"%string, t0); ("*out"%string, c0)] bv k sx h m o)
-    (if k =? 0 then OReturn (VInt SBDF_ERROR_ARGUMENT_NULL) (fr [("out"%string, outv); ("t"%string, VNull); ("*out"%string, c0)] bv (-1) sx h m o)
-     else OReturn (VInt SBDF_OK) (fr [("out"%string, outv); ("t"%string, VCell (List.length h) 0); ("*out"%string, VCell (List.length h) 0)] bv (next_fail k) sx (h ++ [Some [VInt 0; VInt 1]]) m o)).
-Proof.
-  intros Ho. destruct outv as [| pr po | | | | |]; try contradiction. cbn [fbody prog_sbdf_md_create]. unfold fr.
-  eapply bsE_seq; [eapply bsE_decl1; [evc; reflexivity|evc; reflexivity]|].
-  eapply bsE_seq; [eapply bsE_if; [evc; reflexivity|reflexivity|apply bsE_skip]|].
-  destruct (k =? 0) eqn:Ek.
-  - eapply bsE_seq; [eapply bsE_expr; evc; chk7; evc; rewrite Ek; evc; reflexivity|].
-    eapply bsE_seq_ret. eapply bsE_if; [evc; reflexivity|reflexivity|]. eapply bsE_return. evc. chk7. reflexivity.
-  - eapply bsE_seq; [eapply bsE_expr; evc; chk7; evc; rewrite Ek; evc; reflexivity|].
-    eapply bsE_seq; [eapply bsE_if; [evc; reflexivity|reflexivity|apply bsE_skip]|].
-    assert (Hn : nth_error (h ++ [Some [VInt 0; VInt 0]]) (List.length h) = Some (Some [VInt 0; VInt 0])) by (rewrite nth_error_app2 by lia; rewrite Nat.sub_diag; reflexivity).
-    assert (Hs : set_nth_v (List.length h) (Some [VInt 0; VInt 1]) (h ++ [Some [VInt 0; VInt 0]]) = Some (h ++ [Some [VInt 0; VInt 1]])).
-    { clear. induction h as [|x h IH]; cbn [List.length app set_nth_v]; [reflexivity|]. now rewrite IH. }
-    eapply bsE_seq; [eapply bsE_expr; evc; chk7; evc; chk7; evc; change (repeat (VInt 0) (Z.to_nat 2)) with [VInt 0; VInt 0]; cellrw Hn; rewrite Hs; evc; reflexivity|].
-    eapply bsE_seq; [eapply bsE_expr; evc; reflexivity|]. eapply bsE_return. evc. chk7. unfold next_fail. reflexivity.
-Qed.
-
-End Md.
-
-(* ---- the statements about top-level calls ---- *)
-Theorem md_cnt_source k sx m h hb names modif : md_head h m hb names modif -> zlen names <= int_max ->
-  exists f0, forall f, (f0 <= f)%nat -> exists fin,
-    callC prog_env f prog_sbdf_md_cnt [VCell hb 0] m k sx h = OReturn (VInt (zlen names)) fin /\
-    inb fin = m /\ lookup cells_var (vars fin) = Some (VHeap h).
-Proof.
-  intros H Hm. destruct (bsE_sound _ _ _ _ (md_cnt_bs (VInt 0) k sx m [] h hb names modif VUndef VUndef H Hm)) as (f0 & F).
-  exists f0. intros f Hf. eexists. split; [apply F; exact Hf|]. split; reflexivity.
-Qed.
-
-Theorem md_exists_source k sx m h hb q name names modif : md_head h m hb names modif -> cstr_at m q name ->
-  exists f0, forall f, (f0 <= f)%nat -> exists fin,
-    callC prog_env f prog_sbdf_md_exists [VPtr RIn q; VCell hb 0] m k sx h = OReturn (VInt (if existsb (list_eqb name) names then 1 else 0)) fin /\
-    inb fin = m /\ lookup cells_var (vars fin) = Some (VHeap h).
-Proof.
-  intros H Hq. destruct (md_exists_bs (VInt 0) k sx m [] h hb q name names modif VUndef H Hq) as (tv & B).
-  destruct (bsE_sound _ _ _ _ B) as (f0 & F). exists f0. intros f Hf. eexists. split; [apply F; exact Hf|]. split; reflexivity.
-Qed.
-
-Theorem md_set_immutable_source k sx m h hb first modif : nth_error h hb = Some (Some [first; VInt modif]) ->
-  exists h', set_nth_v hb (Some [first; VInt 0]) h = Some h' /\
-  exists f0, forall f, (f0 <= f)%nat -> exists fin,
-    callC prog_env f prog_sbdf_md_set_immutable [VCell hb 0] m k sx h = OReturn (VInt SBDF_OK) fin /\
-    inb fin = m /\ lookup cells_var (vars fin) = Some (VHeap h').
-Proof.
-  intros Hb. destruct (md_set_immutable_bs (VInt 0) k sx m [] h hb first modif Hb) as (h' & E & B). exists h'. split; [exact E|].
-  destruct (bsE_sound _ _ _ _ B) as (f0 & F). exists f0. intros f Hf. eexists. split; [apply F; exact Hf|]. split; reflexivity.
-Qed.
-
-Theorem md_create_source k sx m h :
-  exists f0, forall f, (f0 <= f)%nat -> exists fin,
-    callC prog_env f prog_sbdf_md_create [tok] m k sx h =
-      OReturn (VInt (if k =? 0 then SBDF_ERROR_ARGUMENT_NULL else SBDF_OK)) fin /\
-    inb fin = m /\
-    (if k =? 0 then lookup cells_var (vars fin) = Some (VHeap h)
-     else lookup cells_var (vars fin) = Some (VHeap (h ++ [Some [VInt 0; VInt 1]])) /\ lookup "*out" (vars fin) = Some (VCell (List.length h) 0) /\
-          md_head (h ++ [Some [VInt 0; VInt 1]]) m (List.length h) [] 1).
-Proof.
-  pose proof (md_create_bs (VInt 0) k sx m [] h tok VUndef VUndef I) as B.
-  destruct (k =? 0); destruct (bsE_sound _ _ _ _ B) as (f0 & F); exists f0; intros f Hf; eexists; (split; [apply F; exact Hf|]); (split; [reflexivity|]).
-  - reflexivity.
-  - split; [reflexivity|]. split; [reflexivity|]. exists (VInt 0). split; [|reflexivity]. rewrite nth_error_app2 by lia. rewrite Nat.sub_diag. reflexivity.
-Qed.
-
-(* ================================================================== value arrays and column slices *)
-Ltac evcc := cbn [prog_env eval_args callee_init finish_call copy_in copy_out try_update update lookup combine map app String.append
-                 String.eqb Ascii.eqb Bool.eqb fparams flocals fbody vars inb outb budget_var fail_var strm_var cells_var cell_token List.length Nat.eqb eval set_var cast
-                 prog_sbdf_va_row_cnt prog_sbdf_cs_row_cnt prog_sbdf_obj_destroy prog_sbdf_dispose_array prog_sbdf_va_destroy
-                 prog_sbdf_str_cmp prog_sbdf_ba_memcmp truth binop_int b2z negb heap_of as_ptr storable].
 
 (* a value array handle at block vb: value type, encoding, value1, object1, object2 *)
 Definition va_block (h : heap) (vb : nat) (ty enc v1 : Z) (o1 o2 : val) : Prop :=
@@ -231,305 +48,6 @@ Definition va_block (h : heap) (vb : nat) (ty enc v1 : Z) (o1 o2 : val) : Prop :
 (* an object header at block ob: value type, count, data pointer *)
 Definition obj_block (h : heap) (ob : nat) (ty cnt : Z) (data : val) : Prop :=
   nth_error h ob = Some (Some [VInt ty; VInt cnt; data]).
-
-(* what sbdf_va_row_cnt answers *)
-Definition row_cnt_of (enc v1 cnt : Z) : Z :=
-  if enc =? SBDF_PLAINARRAYENCODINGTYPEID then cnt
-  else if (enc =? SBDF_RUNLENGTHENCODINGTYPEID) || (enc =? SBDF_BITARRAYENCODINGTYPEID) then v1
-  else SBDF_ERROR_UNKNOWN_VALUEARRAY_ENCODING.
-
-Section Slices.
-Variables (bv : val) (k : Z) (sx : list Z) (m o : list Z).
-
-Lemma va_row_cnt_bs h vb ty enc v1 o1 o2 ob oty cnt data :
-  va_block h vb ty enc v1 o1 o2 -> int_min <= enc <= int_max ->
-  (enc = SBDF_PLAINARRAYENCODINGTYPEID -> as_ptr o1 = VCell ob 0 /\ obj_block h ob oty cnt data) ->
-  bsE prog_env (fbody prog_sbdf_va_row_cnt) (fr [("in"%string, VCell vb 0)] bv k sx h m o)
-    (OReturn (VInt (row_cnt_of enc v1 cnt)) (fr [("in"%string, VCell vb 0)] bv k sx h m o)).
-Proof.
-  intros Hv He Hp. unfold va_block in Hv. cbn [fbody prog_sbdf_va_row_cnt]. unfold fr, row_cnt_of.
-  change SBDF_PLAINARRAYENCODINGTYPEID with 1 in *. change SBDF_RUNLENGTHENCODINGTYPEID with 2. change SBDF_BITARRAYENCODINGTYPEID with 3.
-  eapply bsE_seq; [eapply bsE_if; [evc; reflexivity|reflexivity|apply bsE_skip]|].
-  assert (L : forall c, 0 <= c <= 3 -> eval (EBin Eq (ECellLoad (EVar "in") (EConst 1) false) (EConst c))
-      {| vars := [("in"%string, VCell vb 0); (budget_var, bv); (fail_var, VInt k); (strm_var, VBytes sx); (cells_var, VHeap h)]; inb := m; outb := o |}
-      = Some (VInt (b2z (enc =? c)), {| vars := [("in"%string, VCell vb 0); (budget_var, bv); (fail_var, VInt k); (strm_var, VBytes sx); (cells_var, VHeap h)]; inb := m; outb := o |})).
-  { intros c Hc. evc. chk7. evc. cellrw Hv. evc. chk7. reflexivity. }
-  destruct (enc =? 1) eqn:E1.
-  - destruct (Hp ltac:(lia)) as (Ho1 & Hob). unfold obj_block in Hob.
-    eapply bsE_seq_ret. eapply bsE_if; [cbn [app]; rewrite L by lia; rewrite E1; reflexivity|reflexivity|].
-    eapply bsE_return. evc. chk7. evc. cellrw Hv. evc. rewrite Ho1. chk7. evc. cellrw Hob. reflexivity.
-  - destruct (enc =? 2) eqn:E2; [|destruct (enc =? 3) eqn:E3]; cbn [orb].
-    + eapply bsE_seq_ret. eapply bsE_if; [cbn [app]; rewrite L by lia; rewrite E1; reflexivity|reflexivity|].
-      eapply bsE_if; [rewrite L by lia; rewrite E2; reflexivity|reflexivity|]. eapply bsE_return. evc. chk7. evc. cellrw Hv. reflexivity.
-    + eapply bsE_seq_ret. eapply bsE_if; [cbn [app]; rewrite L by lia; rewrite E1; reflexivity|reflexivity|].
-      eapply bsE_if; [rewrite L by lia; rewrite E2; reflexivity|reflexivity|].
-      eapply bsE_if; [rewrite L by lia; rewrite E3; reflexivity|reflexivity|]. eapply bsE_return. evc. chk7. evc. cellrw Hv. reflexivity.
-    + eapply bsE_seq; [eapply bsE_if; [cbn [app]; rewrite L by lia; rewrite E1; reflexivity|reflexivity|]|].
-      { eapply bsE_if; [rewrite L by lia; rewrite E2; reflexivity|reflexivity|].
-        eapply bsE_if; [rewrite L by lia; rewrite E3; reflexivity|reflexivity|apply bsE_skip]. }
-      eapply bsE_return. evc. chk7. reflexivity.
-Qed.
-
-
-(* a column slice at block cb: values, property count, names array, properties array, owned flag *)
-Definition cs_block (h : heap) (cb : nat) (values : val) (n : Z) (names props : val) (owned : Z) : Prop :=
-  nth_error h cb = Some (Some [values; VInt n; names; props; VInt owned]).
-
-Lemma cs_row_cnt_bs h cb values n names props owned vb ty enc v1 o1 o2 ob oty cnt data r0 :
-  cs_block h cb values n names props owned -> as_ptr values = VCell vb 0 ->
-  va_block h vb ty enc v1 o1 o2 -> int_min <= enc <= int_max ->
-  (enc = SBDF_PLAINARRAYENCODINGTYPEID -> as_ptr o1 = VCell ob 0 /\ obj_block h ob oty cnt data) ->
-  bsE prog_env (fbody prog_sbdf_cs_row_cnt) (fr [("in"%string, VCell cb 0); ("$ret"%string, r0)] bv k sx h m o)
-    (OReturn (VInt (row_cnt_of enc v1 cnt)) (fr [("in"%string, VCell cb 0); ("$ret"%string, VInt (row_cnt_of enc v1 cnt))] bv k sx h m o)).
-Proof.
-  intros Hc Hvals Hv He Hp. unfold cs_block in Hc. cbn [fbody prog_sbdf_cs_row_cnt]. unfold fr.
-  pose proof (va_row_cnt_bs h vb ty enc v1 o1 o2 ob oty cnt data Hv He Hp) as B. unfold fr in B. cbn [app] in B.
-  eapply bsE_seq; [eapply bsE_if; [evc; reflexivity|reflexivity|apply bsE_skip]|].
-  eapply bsE_seq; [eapply bsE_call; [reflexivity|evcc; chk7; evcc; cellrw Hc; evcc; rewrite Hvals; reflexivity|reflexivity|evcc; exact B|evcc; reflexivity]|].
-  eapply bsE_return. evc. reflexivity.
-Qed.
-
-(* ---- sbdf_cs_create: a fresh slice referring to the caller's value array, no properties, not owning ---- *)
-Lemma cs_create_bs h outv values t0 c0 : is_ptr outv -> storable values = true -> values <> VUndef ->
-  bsE prog_env (fbody prog_sbdf_cs_create) (fr [("out"%string, outv); ("values"%string, values); ("t"%string, t0); ("*out"%string, c0)] bv k sx h m o)
-    (if k =? 0 then OReturn (VInt SBDF_ERROR_OUT_OF_MEMORY) (fr [("out"%string, outv); ("values"%string, values); ("t"%string, VNull); ("*out"%string, c0)] bv (-1) sx h m o)
-     else OReturn (VInt SBDF_OK) (fr [("out"%string, outv); ("values"%string, values); ("t"%string, VCell (List.length h) 0); ("*out"%string, VCell (List.length h) 0)] bv (next_fail k) sx
-                                     (h ++ [Some [values; VInt 0; VInt 0; VInt 0; VInt 0]]) m o)).
-Proof.
-  intros Ho Hst Hu. destruct outv as [| pr po | | | | |]; try contradiction. cbn [fbody prog_sbdf_cs_create]. unfold fr.
-  assert (Hn : nth_error (h ++ [Some [VInt 0; VInt 0; VInt 0; VInt 0; VInt 0]]) (List.length h) = Some (Some [VInt 0; VInt 0; VInt 0; VInt 0; VInt 0])) by (rewrite nth_error_app2 by lia; rewrite Nat.sub_diag; reflexivity).
-  assert (Hs : forall x y, set_nth_v (List.length h) (Some y) (h ++ [Some x]) = Some (h ++ [Some y])).
-  { clear. intros x y. induction h as [|z h IH]; cbn [List.length app set_nth_v]; [reflexivity|]. now rewrite IH. }
-  destruct values as [z|r q| | | |cb ci|]; try discriminate; try congruence.
-  all: (eapply bsE_seq; [eapply bsE_decl1; [evc; reflexivity|evc; reflexivity]|]);
-       (eapply bsE_seq; [eapply bsE_if; [evc; reflexivity|reflexivity|apply bsE_skip]|]);
-       destruct (k =? 0) eqn:Ek;
-       [ (eapply bsE_seq; [eapply bsE_expr; evc; chk7; evc; rewrite Ek; evc; reflexivity|]);
-         eapply bsE_seq_ret; (eapply bsE_if; [evc; reflexivity|reflexivity|]); eapply bsE_return; evc; chk7; reflexivity
-       | (eapply bsE_seq; [eapply bsE_expr; evc; chk7; evc; rewrite Ek; evc; reflexivity|]);
-         (eapply bsE_seq; [eapply bsE_if; [evc; reflexivity|reflexivity|apply bsE_skip]|]);
-         (eapply bsE_seq; [eapply bsE_expr; evc; chk7; evc;
-              change (repeat (VInt 0) (Z.to_nat 5)) with [VInt 0; VInt 0; VInt 0; VInt 0; VInt 0]; cellrw Hn; rewrite Hs; evc; reflexivity|]);
-         (eapply bsE_seq; [eapply bsE_expr; evc; reflexivity|]); eapply bsE_return; evc; chk7; unfold next_fail; reflexivity ].
-Qed.
-
-
-(* ---- sbdf_cs_get_property: the first property with that name ---- *)
-Fixpoint find_name (name : list Z) (pn : list (list Z)) (i : Z) : option Z :=
-  match pn with
-  | [] => None
-  | nm :: rest => if list_eqb name nm then Some i else find_name name rest (i + 1)
-  end.
-
-(* cell j of the names array points at the NUL-terminated j-th name *)
-Definition names_at (m : list Z) (cells : list val) (pn : list (list Z)) : Prop :=
-  forall j nm, nth_error pn j = Some nm -> exists np, nth_error cells j = Some (VPtr RIn np) /\ cstr_at m np nm.
-
-Lemma cs_get_loop h cb values names props owned nb ncells pb pcells q name outv pn :
-  cs_block h cb values (zlen pn) names props owned ->
-  as_ptr names = VCell nb 0 -> nth_error h nb = Some (Some ncells) -> names_at m ncells pn ->
-  as_ptr props = VCell pb 0 -> nth_error h pb = Some (Some pcells) -> (List.length pn <= List.length pcells)%nat ->
-  cstr_at m q name -> zlen pn < int_max ->
-  forall rest done c0, pn = done ++ rest ->
-  exists iv cv, bsE prog_env
-    (SWhile (EBin Lt (EVar "i") (ECellLoad (EVar "in") (EConst 1) false))
-       (SSeq (SIf (ELNot (EStrcmp (EVar "name") (ECellLoad (ECellLoad (EVar "in") (EConst 2) true) (EVar "i") true)))
-                  (SSeq (SExpr (EAssign "*out" (ECellLoad (ECellLoad (EVar "in") (EConst 3) true) (EVar "i") true))) (SReturn (EConst (0)))) SSkip)
-             (SExpr (EPreInc "i"))))
-    (fr [("in"%string, VCell cb 0); ("name"%string, VPtr RIn q); ("out"%string, outv); ("i"%string, VInt (zlen done)); ("*out"%string, c0)] bv k sx h m o)
-    (match find_name name rest (zlen done) with
-     | Some j => OReturn (VInt 0) (fr [("in"%string, VCell cb 0); ("name"%string, VPtr RIn q); ("out"%string, outv); ("i"%string, VInt j);
-                                       ("*out"%string, as_ptr (nth (Z.to_nat j) pcells VUndef))] bv k sx h m o)
-     | None => ONormal (fr [("in"%string, VCell cb 0); ("name"%string, VPtr RIn q); ("out"%string, outv); ("i"%string, iv); ("*out"%string, cv)] bv k sx h m o)
-     end) /\ (find_name name rest (zlen done) = None -> cv = c0).
-Proof.
-  intros Hc Hn Hnb Hna Hp Hpb Hlen (Hq0 & Hq1) Hmax. unfold cs_block in Hc. unfold int_max in Hmax.
-  induction rest as [|nm rest IH]; intros done c0 Hpn; unfold fr.
-  - cbn [find_name]. rewrite app_nil_r in Hpn. subst done. exists (VInt (zlen pn)), c0. split; [|reflexivity].
-    eapply bsE_while_f; [evc; chk7; evc; cellrw Hc; evc; rewrite Z.ltb_irrefl; reflexivity|reflexivity].
-  - cbn [find_name].
-    assert (Hj : nth_error pn (List.length done) = Some nm) by (rewrite Hpn, nth_error_app2 by lia; rewrite Nat.sub_diag; reflexivity).
-    destruct (Hna _ _ Hj) as (np & Hnc & Hs0 & Hs1).
-    assert (Hd : zlen done < zlen pn) by (rewrite Hpn, zlen_app; unfold zlen; cbn [List.length]; lia).
-    pose proof (zlen_nonneg done) as Pd.
-    assert (Hi : 0 <=? 0 + zlen done = true) by lia.
-    assert (Hidx : Z.to_nat (0 + zlen done) = List.length done) by (unfold zlen; lia).
-    assert (COND : eval (EBin Lt (EVar "i") (ECellLoad (EVar "in") (EConst 1) false))
-         {| vars := [("in"%string, VCell cb 0); ("name"%string, VPtr RIn q); ("out"%string, outv); ("i"%string, VInt (zlen done)); ("*out"%string, c0);
-                     (budget_var, bv); (fail_var, VInt k); (strm_var, VBytes sx); (cells_var, VHeap h)]; inb := m; outb := o |}
-         = Some (VInt 1, {| vars := [("in"%string, VCell cb 0); ("name"%string, VPtr RIn q); ("out"%string, outv); ("i"%string, VInt (zlen done)); ("*out"%string, c0);
-                     (budget_var, bv); (fail_var, VInt k); (strm_var, VBytes sx); (cells_var, VHeap h)]; inb := m; outb := o |})).
-    { evc. chk7. evc. cellrw Hc. evc. replace (zlen done <? zlen pn) with true by lia. reflexivity. }
-    assert (CMP : eval (ELNot (EStrcmp (EVar "name") (ECellLoad (ECellLoad (EVar "in") (EConst 2) true) (EVar "i") true)))
-         {| vars := [("in"%string, VCell cb 0); ("name"%string, VPtr RIn q); ("out"%string, outv); ("i"%string, VInt (zlen done)); ("*out"%string, c0);
-                     (budget_var, bv); (fail_var, VInt k); (strm_var, VBytes sx); (cells_var, VHeap h)]; inb := m; outb := o |}
-         = Some (VInt (b2z (negb (negb (lexcmp_l name nm =? 0)))),
-                 {| vars := [("in"%string, VCell cb 0); ("name"%string, VPtr RIn q); ("out"%string, outv); ("i"%string, VInt (zlen done)); ("*out"%string, c0);
-                     (budget_var, bv); (fail_var, VInt k); (strm_var, VBytes sx); (cells_var, VHeap h)]; inb := m; outb := o |})).
-    { evc. chk7. evc. cellrw Hc. evc. rewrite Hn. evc. unfold cell_get. rewrite Hnb, Hi, Hidx, Hnc. evc. cbn [inb]. rewrite zlen_length.
-      replace ((0 <=? q) && (q <=? zlen m) && (0 <=? np) && (np <=? zlen m)) with true by lia. rewrite Hq1, Hs1. reflexivity. }
-    destruct (list_eqb name nm) eqn:E.
-    + apply list_eqb_spec in E. subst nm. exists VUndef, VUndef. split; [|discriminate].
-      assert (Hpc : exists pvv, nth_error pcells (List.length done) = Some pvv).
-      { destruct (nth_error pcells (List.length done)) eqn:X; [eexists; reflexivity|]. apply nth_error_None in X. assert (List.length done < List.length pn)%nat by (apply nth_error_Some; congruence). lia. }
-      destruct Hpc as (pvv & Hpc).
-      eapply bsE_while_ret; [exact COND|reflexivity|].
-      eapply bsE_seq_ret. eapply bsE_if; [exact CMP| |].
-      * replace (lexcmp_l name name) with 0 by (symmetry; now apply lexcmp_l_eq). reflexivity.
-      * eapply bsE_seq; [eapply bsE_expr; evc; chk7; evc; cellrw Hc; evc; rewrite Hp; evc; unfold cell_get; rewrite Hpb, Hi, Hidx, Hpc; evc; reflexivity|].
-        eapply bsE_return. evc. chk7. replace (Z.to_nat (zlen done)) with (List.length done) by (unfold zlen; lia).
-        rewrite (nth_error_nth _ _ VUndef Hpc). reflexivity.
-    + assert (Hne : lexcmp_l name nm <> 0). { intros C. apply lexcmp_l_eq in C. subst nm. assert (list_eqb name name = true) by now apply list_eqb_spec. congruence. }
-      destruct (IH (done ++ [nm]) c0) as (iv & cv & B & Hcv); [rewrite <- app_assoc; exact Hpn|].
-      assert (Hz : zlen (done ++ [nm]) = zlen done + 1) by (rewrite zlen_app; reflexivity). rewrite Hz in *.
-      exists iv, cv. split; [|exact Hcv].
-      assert (STEP : bsE prog_env (SSeq (SIf (ELNot (EStrcmp (EVar "name") (ECellLoad (ECellLoad (EVar "in") (EConst 2) true) (EVar "i") true)))
-                  (SSeq (SExpr (EAssign "*out" (ECellLoad (ECellLoad (EVar "in") (EConst 3) true) (EVar "i") true))) (SReturn (EConst (0)))) SSkip)
-             (SExpr (EPreInc "i")))
-         {| vars := [("in"%string, VCell cb 0); ("name"%string, VPtr RIn q); ("out"%string, outv); ("i"%string, VInt (zlen done)); ("*out"%string, c0);
-                     (budget_var, bv); (fail_var, VInt k); (strm_var, VBytes sx); (cells_var, VHeap h)]; inb := m; outb := o |}
-         (ONormal (fr [("in"%string, VCell cb 0); ("name"%string, VPtr RIn q); ("out"%string, outv); ("i"%string, VInt (zlen done + 1)); ("*out"%string, c0)] bv k sx h m o))).
-      { eapply bsE_seq; [eapply bsE_if; [exact CMP|destruct (lexcmp_l name nm =? 0) eqn:Z0; [lia|reflexivity]|apply bsE_skip]|].
-        eapply bsE_expr. evc. unfold incr. chk7. evc. reflexivity. }
-      destruct (find_name name rest (zlen done + 1)); (eapply bsE_while_t; [exact COND|reflexivity|exact STEP|exact B]).
-Qed.
-
-
-Lemma cs_get_property_bs h cb values names props owned nb ncells pb pcells q name outv pn i0 c0 : is_ptr outv ->
-  cs_block h cb values (zlen pn) names props owned ->
-  as_ptr names = VCell nb 0 -> nth_error h nb = Some (Some ncells) -> names_at m ncells pn ->
-  as_ptr props = VCell pb 0 -> nth_error h pb = Some (Some pcells) -> (List.length pn <= List.length pcells)%nat ->
-  cstr_at m q name -> zlen pn < int_max ->
-  exists iv cv, bsE prog_env (fbody prog_sbdf_cs_get_property)
-    (fr [("in"%string, VCell cb 0); ("name"%string, VPtr RIn q); ("out"%string, outv); ("i"%string, i0); ("*out"%string, c0)] bv k sx h m o)
-    (match find_name name pn 0 with
-     | Some j => OReturn (VInt SBDF_OK) (fr [("in"%string, VCell cb 0); ("name"%string, VPtr RIn q); ("out"%string, outv); ("i"%string, VInt j);
-                                       ("*out"%string, as_ptr (nth (Z.to_nat j) pcells VUndef))] bv k sx h m o)
-     | None => OReturn (VInt SBDF_ERROR_PROPERTY_NOT_FOUND) (fr [("in"%string, VCell cb 0); ("name"%string, VPtr RIn q); ("out"%string, outv); ("i"%string, iv); ("*out"%string, cv)] bv k sx h m o)
-     end) /\ (find_name name pn 0 = None -> cv = c0).
-Proof.
-  intros Ho Hc Hn Hnb Hna Hp Hpb Hlen Hq Hmax. destruct outv as [| pr po | | | | |]; try contradiction.
-  destruct (cs_get_loop h cb values names props owned nb ncells pb pcells q name (VPtr pr po) pn Hc Hn Hnb Hna Hp Hpb Hlen Hq Hmax pn [] c0 eq_refl) as (iv & cv & B & Hcv).
-  change (zlen (@nil (list Z))) with 0 in *. exists iv, cv. split; [|exact Hcv].
-  cbn [fbody prog_sbdf_cs_get_property]. unfold fr in *.
-  eapply bsE_seq; [eapply bsE_decl0; evc; reflexivity|].
-  eapply bsE_seq; [eapply bsE_if; [evc; reflexivity|reflexivity|apply bsE_skip]|].
-  destruct (find_name name pn 0).
-  - eapply bsE_seq_ret. eapply bsE_seq; [eapply bsE_expr; evc; chk7; evc; reflexivity|]. exact B.
-  - eapply bsE_seq; [eapply bsE_seq; [eapply bsE_expr; evc; chk7; evc; reflexivity|exact B]|].
-    eapply bsE_return. evc. chk7. reflexivity.
-Qed.
-
-End Slices.
-
-Theorem va_row_cnt_source k sx m h vb ty enc v1 o1 o2 ob oty cnt data :
-  va_block h vb ty enc v1 o1 o2 -> int_min <= enc <= int_max ->
-  (enc = SBDF_PLAINARRAYENCODINGTYPEID -> as_ptr o1 = VCell ob 0 /\ obj_block h ob oty cnt data) ->
-  exists f0, forall f, (f0 <= f)%nat -> exists fin,
-    callC prog_env f prog_sbdf_va_row_cnt [VCell vb 0] m k sx h = OReturn (VInt (row_cnt_of enc v1 cnt)) fin /\
-    inb fin = m /\ lookup cells_var (vars fin) = Some (VHeap h).
-Proof.
-  intros Hv He Hp. destruct (bsE_sound _ _ _ _ (va_row_cnt_bs (VInt 0) k sx m [] h vb ty enc v1 o1 o2 ob oty cnt data Hv He Hp)) as (f0 & F).
-  exists f0. intros f Hf. eexists. split; [apply F; exact Hf|]. split; reflexivity.
-Qed.
-
-Theorem cs_row_cnt_source k sx m h cb values n names props owned vb ty enc v1 o1 o2 ob oty cnt data :
-  cs_block h cb values n names props owned -> as_ptr values = VCell vb 0 ->
-  va_block h vb ty enc v1 o1 o2 -> int_min <= enc <= int_max ->
-  (enc = SBDF_PLAINARRAYENCODINGTYPEID -> as_ptr o1 = VCell ob 0 /\ obj_block h ob oty cnt data) ->
-  exists f0, forall f, (f0 <= f)%nat -> exists fin,
-    callC prog_env f prog_sbdf_cs_row_cnt [VCell cb 0] m k sx h = OReturn (VInt (row_cnt_of enc v1 cnt)) fin /\
-    inb fin = m /\ lookup cells_var (vars fin) = Some (VHeap h).
-Proof.
-  intros Hc Hvals Hv He Hp.
-  destruct (bsE_sound _ _ _ _ (cs_row_cnt_bs (VInt 0) k sx m [] h cb values n names props owned vb ty enc v1 o1 o2 ob oty cnt data VUndef Hc Hvals Hv He Hp)) as (f0 & F).
-  exists f0. intros f Hf. eexists. split; [apply F; exact Hf|]. split; reflexivity.
-Qed.
-
-Theorem cs_create_source k sx m h vb :
-  exists f0, forall f, (f0 <= f)%nat -> exists fin,
-    callC prog_env f prog_sbdf_cs_create [tok; VCell vb 0] m k sx h =
-      OReturn (VInt (if k =? 0 then SBDF_ERROR_OUT_OF_MEMORY else SBDF_OK)) fin /\ inb fin = m /\
-    (if k =? 0 then lookup cells_var (vars fin) = Some (VHeap h)
-     else lookup cells_var (vars fin) = Some (VHeap (h ++ [Some [VCell vb 0; VInt 0; VInt 0; VInt 0; VInt 0]])) /\
-          lookup "*out" (vars fin) = Some (VCell (List.length h) 0)).
-Proof.
-  pose proof (cs_create_bs (VInt 0) k sx m [] h tok (VCell vb 0) VUndef VUndef I eq_refl ltac:(discriminate)) as B.
-  destruct (k =? 0); destruct (bsE_sound _ _ _ _ B) as (f0 & F); exists f0; intros f Hf; eexists; (split; [apply F; exact Hf|]); (split; [reflexivity|]).
-  - reflexivity.
-  - split; reflexivity.
-Qed.
-
-Theorem cs_get_property_source k sx m h cb values names props owned nb ncells pb pcells q name pn :
-  cs_block h cb values (zlen pn) names props owned ->
-  as_ptr names = VCell nb 0 -> nth_error h nb = Some (Some ncells) -> names_at m ncells pn ->
-  as_ptr props = VCell pb 0 -> nth_error h pb = Some (Some pcells) -> (List.length pn <= List.length pcells)%nat ->
-  cstr_at m q name -> zlen pn < int_max ->
-  exists f0, forall f, (f0 <= f)%nat -> exists fin,
-    callC prog_env f prog_sbdf_cs_get_property [VCell cb 0; VPtr RIn q; tok] m k sx h =
-      OReturn (VInt (match find_name name pn 0 with Some _ => SBDF_OK | None => SBDF_ERROR_PROPERTY_NOT_FOUND end)) fin /\
-    inb fin = m /\ lookup cells_var (vars fin) = Some (VHeap h) /\
-    lookup "*out" (vars fin) = Some (match find_name name pn 0 with Some j => as_ptr (nth (Z.to_nat j) pcells VUndef) | None => VUndef end).
-Proof.
-  intros Hc Hn Hnb Hna Hp Hpb Hlen Hq Hmax.
-  destruct (cs_get_property_bs (VInt 0) k sx m [] h cb values names props owned nb ncells pb pcells q name tok pn VUndef VUndef I Hc Hn Hnb Hna Hp Hpb Hlen Hq Hmax) as (iv & cv & B & Hcv).
-  destruct (find_name name pn 0) eqn:Ef; destruct (bsE_sound _ _ _ _ B) as (f0 & F); exists f0; intros f Hf; eexists; (split; [apply F; exact Hf|]); (split; [reflexivity|]); (split; [reflexivity|]).
-  - reflexivity.
-  - cbn [fr vars app lookup String.eqb Ascii.eqb Bool.eqb]. rewrite (Hcv eq_refl). reflexivity.
-Qed.
-
-(* ================================================================== sbdf_obj_destroy *)
-(* an object in the two heaps: header block ob; for string / binary types the data block db holds one
-   pointer per element into the byte memory (each at least 4 bytes in: the length header sits in
-   front); for the other types the data pointer points into the byte memory *)
-Definition elem_ptrs (m : list Z) (cells : list val) : Prop :=
-  Forall (fun c => exists p, c = VPtr RIn p /\ 4 <= p <= zlen m) cells.
-
-Section Destroy.
-Variables (bv : val) (k : Z) (sx : list Z) (m o : list Z).
-
-Lemma dispose_array_bs2 h p : 4 <= p <= zlen m ->
-  bsE prog_env (fbody prog_sbdf_dispose_array) (fr [("array"%string, VPtr RIn p)] bv k sx h m o) (ONormal (fr [("array"%string, VPtr RIn p)] bv k sx h m o)).
-Proof.
-  intros Hp. cbn [fbody prog_sbdf_dispose_array]. unfold fr.
-  eapply bsE_if; [evc; reflexivity|reflexivity|]. eapply bsE_expr. evc. chk7. evc. chk7. evc. unfold ptr_add. cbn [inb]. rewrite zlen_length.
-  replace ((0 <=? p + -4 * 1) && (p + -4 * 1 <=? zlen m)) with true by lia. cbn [inb]. rewrite zlen_length.
-  replace ((0 <=? p + -4 * 1) && (p + -4 * 1 <=? zlen m)) with true by lia. reflexivity.
-Qed.
-
-(* the element loop: i counts down from count-1, ptr walks up the data block; every element is handed to sbdf_dispose_array once *)
-Lemma obj_destroy_loop h ob db cells : nth_error h db = Some (Some cells) -> elem_ptrs m cells ->
-  forall rest done, cells = done ++ rest -> zlen cells <= int_max ->
-  bsE prog_env
-    (SWhile (EBin Ge (EVar "i") (EConst (0)))
-       (SSeq (SIf (ECellLoad (EVar "ptr") (EConst 0) true) (SCall None "sbdf_dispose_array" [(AVal (ECellLoad (ECellStep "ptr" (1) true) (EConst 0) true))]) SSkip)
-             (SExpr (EPreDec "i"))))
-    (fr [("object"%string, VCell ob 0); ("i"%string, VInt (zlen rest - 1)); ("ptr"%string, VCell db (zlen done))] bv k sx h m o)
-    (ONormal (fr [("object"%string, VCell ob 0); ("i"%string, VInt (-1)); ("ptr"%string, VCell db (zlen cells))] bv k sx h m o)).
-Proof.
-  intros Hdb Hel. induction rest as [|c rest IH]; intros done Hc Hmax; unfold fr.
-  - rewrite app_nil_r in Hc. subst done. change (zlen (@nil val) - 1) with (-1).
-    eapply bsE_while_f; [evc; chk7; evc; reflexivity|reflexivity].
-  - assert (Hin : In c cells) by (rewrite Hc; apply in_or_app; right; left; reflexivity).
-    unfold elem_ptrs in Hel. rewrite Forall_forall in Hel. destruct (Hel c Hin) as (p & -> & Hp).
-    pose proof (zlen_nonneg rest) as Pr. pose proof (zlen_nonneg done) as Pd.
-    assert (Hz : zlen (VPtr RIn p :: rest) = 1 + zlen rest) by (unfold zlen; cbn [List.length]; lia). rewrite Hz.
-    assert (Hzc : zlen cells = zlen done + 1 + zlen rest) by (rewrite Hc, zlen_app, Hz; lia).
-    assert (Hnth : nth_error cells (Z.to_nat (zlen done)) = Some (VPtr RIn p)).
-    { rewrite Hc. replace (Z.to_nat (zlen done)) with (List.length done) by (unfold zlen; lia). rewrite nth_error_app2 by lia. rewrite Nat.sub_diag. reflexivity. }
-    unfold int_max in Hmax.
-    eapply bsE_while_t; [evc; chk7; evc; replace (1 + zlen rest - 1 >=? 0) with true by lia; reflexivity|reflexivity| |].
-    + eapply bsE_seq.
-      * eapply bsE_if; [evc; chk7; evc; unfold cell_get; rewrite Hdb; replace (0 <=? zlen done + 0) with true by lia; replace (zlen done + 0) with (zlen done) by lia; rewrite Hnth; evc; reflexivity|reflexivity|].
-        eapply bsE_call_void; [reflexivity
-          |evcc; rewrite Hdb; rewrite zlen_length; replace ((0 <=? zlen done + 1) && (zlen done + 1 <=? zlen cells)) with true by lia; evcc; chk7; evcc;
-           unfold cell_get; rewrite Hdb; replace (0 <=? zlen done + 0) with true by lia; replace (zlen done + 0) with (zlen done) by lia; rewrite Hnth; evcc; reflexivity
-          |reflexivity|apply (dispose_array_bs2 h p Hp)|unfold fr; evcc; reflexivity].
-      * eapply bsE_expr. evc. unfold decr. chk7. evc. reflexivity.
-    + replace (1 + zlen rest - 1 - 1) with (zlen rest - 1) by lia.
-      replace (zlen done + 1) with (zlen (done ++ [VPtr RIn p])) by (rewrite zlen_app; reflexivity).
-      apply IH; [rewrite <- app_assoc; exact Hc|exact Hmax].
-Qed.
 
 
 (* releasing a block *)
@@ -548,140 +66,9 @@ Lemma set_nth_v_twice {A} (l : list A) : forall b y z l1, set_nth_v b y l = Some
 Proof. induction l as [|x l IH]; intros [|b] y z l1 H; cbn [set_nth_v] in H; try discriminate; [injection H as <-; reflexivity|].
   destruct (set_nth_v b y l) eqn:E; [|discriminate]. injection H as <-. cbn [set_nth_v]. now rewrite (IH b y z l0 E). Qed.
 
-(* string / binary objects: every element, the pointer array and the header are released, each once *)
-Lemma obj_destroy_arr_bs h ob db ty cells data i0 p0 : obj_block h ob ty (zlen cells) data -> as_ptr data = VCell db 0 -> ob <> db ->
-  Leaf.gen_sbdf_ti_is_arr ty <> 0 -> nth_error h db = Some (Some cells) -> elem_ptrs m cells -> zlen cells <= int_max ->
-  exists iv pv, bsE prog_env (fbody prog_sbdf_obj_destroy) (fr [("object"%string, VCell ob 0); ("i"%string, i0); ("ptr"%string, p0)] bv k sx h m o)
-    (ONormal (fr [("object"%string, VCell ob 0); ("i"%string, iv); ("ptr"%string, pv)] bv k sx (kill ob (kill db h)) m o)).
-Proof.
-  intros Hob Hd Hne Harr Hdb Hel Hmax. unfold obj_block in Hob. cbn [fbody prog_sbdf_obj_destroy]. unfold fr.
-  pose proof (obj_destroy_loop h ob db cells Hdb Hel cells [] eq_refl Hmax) as LOOP. change (zlen (@nil val)) with 0 in LOOP. unfold fr in LOOP. cbn [app] in LOOP.
-  destruct (set_nth_v_some h db (Some cells) None Hdb) as (h1 & E1).
-  assert (Hob1 : nth_error h1 ob = Some (Some [VInt ty; VInt (zlen cells); data])) by (rewrite (set_nth_v_other h db ob None h1 E1) by congruence; exact Hob).
-  destruct (set_nth_v_some h1 ob _ (Some [VInt ty; VInt (zlen cells); VNull]) Hob1) as (h2 & E2).
-  assert (Hob2 : nth_error h2 ob = Some (Some [VInt ty; VInt (zlen cells); VNull])) by (apply (set_nth_v_same h1 ob _ h2 E2)).
-  destruct (set_nth_v_some h2 ob _ None Hob2) as (h3 & E3).
-  assert (Hfin : kill ob (kill db h) = h3).
-  { unfold kill. rewrite E1. rewrite <- (set_nth_v_twice h1 ob (Some [VInt ty; VInt (zlen cells); VNull]) None h2 E2). rewrite E3. reflexivity. }
-  rewrite Hfin. unfold int_max in Hmax. pose proof (zlen_nonneg cells) as Pc.
-  exists (VInt (-1)), (VCell db (zlen cells)).
-  eapply bsE_if; [evc; reflexivity|reflexivity|].
-  eapply bsE_seq.
-  - eapply bsE_if; [evc; chk7; evc; cellrw Hob; evc; rewrite Hd; reflexivity|reflexivity|].
-    eapply bsE_seq.
-    + eapply bsE_if; [evc; chk7; evc; cellrw Hob; evc; unfold leaf_call; cbn [String.eqb Ascii.eqb Bool.eqb]; reflexivity
-                     |cbn [truth]; destruct (Leaf.gen_sbdf_ti_is_arr ty =? 0) eqn:Z0; [lia|reflexivity]|].
-      eapply bsE_seq; [eapply bsE_decl1; [evc; chk7; evc; cellrw Hob; evc; rewrite Hd; reflexivity|evc; reflexivity]|].
-      eapply bsE_seq; [eapply bsE_decl0; evc; reflexivity|].
-      eapply bsE_seq; [eapply bsE_expr; evc; chk7; evc; cellrw Hob; evc; chk7; evc; reflexivity|].
-      exact LOOP.
-    + eapply bsE_seq.
-      * eapply bsE_expr. evc. chk7. evc. cellrw Hob. evc. rewrite Hd. evc. rewrite Hdb. evc. rewrite E1. evc. reflexivity.
-      * eapply bsE_expr. evc. chk7. evc. cellrw Hob1. rewrite E2. evc. reflexivity.
-  - eapply bsE_expr. evc. rewrite Hob2. evc. rewrite E3. evc. reflexivity.
-Qed.
-
-(* the other types: the data block lives in the byte memory; the header is released *)
-Lemma obj_destroy_fixed_bs h ob ty cnt data dp i0 p0 : obj_block h ob ty cnt data -> data = VPtr RIn dp -> 0 <= dp <= zlen m ->
-  Leaf.gen_sbdf_ti_is_arr ty = 0 ->
-  bsE prog_env (fbody prog_sbdf_obj_destroy) (fr [("object"%string, VCell ob 0); ("i"%string, i0); ("ptr"%string, p0)] bv k sx h m o)
-    (ONormal (fr [("object"%string, VCell ob 0); ("i"%string, i0); ("ptr"%string, p0)] bv k sx (kill ob h) m o)).
-Proof.
-  intros Hob -> Hdp Harr. unfold obj_block in Hob. cbn [fbody prog_sbdf_obj_destroy]. unfold fr.
-  destruct (set_nth_v_some h ob _ (Some [VInt ty; VInt cnt; VNull]) Hob) as (h2 & E2).
-  assert (Hob2 : nth_error h2 ob = Some (Some [VInt ty; VInt cnt; VNull])) by (apply (set_nth_v_same h ob _ h2 E2)).
-  destruct (set_nth_v_some h2 ob _ None Hob2) as (h3 & E3).
-  assert (Hfin : kill ob h = h3) by (unfold kill; rewrite <- (set_nth_v_twice h ob (Some [VInt ty; VInt cnt; VNull]) None h2 E2); rewrite E3; reflexivity).
-  rewrite Hfin.
-  eapply bsE_if; [evc; reflexivity|reflexivity|].
-  eapply bsE_seq.
-  - eapply bsE_if; [evc; chk7; evc; cellrw Hob; evc; reflexivity|reflexivity|].
-    eapply bsE_seq.
-    + eapply bsE_if; [evc; chk7; evc; cellrw Hob; evc; unfold leaf_call; cbn [String.eqb Ascii.eqb Bool.eqb]; reflexivity
-                     |cbn [truth]; rewrite Harr; reflexivity|apply bsE_skip].
-    + eapply bsE_seq.
-      * eapply bsE_expr. evc. chk7. evc. cellrw Hob. evc. cbn [inb]. rewrite zlen_length. replace ((0 <=? dp) && (dp <=? zlen m)) with true by lia. reflexivity.
-      * eapply bsE_expr. evc. chk7. evc. cellrw Hob. rewrite E2. evc. reflexivity.
-  - eapply bsE_expr. evc. rewrite Hob2. evc. rewrite E3. evc. reflexivity.
-Qed.
-
-End Destroy.
-
-(* what one sbdf_obj_destroy does to the cell heap *)
-Definition destroys (m : list Z) (h : heap) (ob : nat) (h' : heap) : Prop :=
-  (exists db ty cells data, obj_block h ob ty (zlen cells) data /\ as_ptr data = VCell db 0 /\ ob <> db /\ Leaf.gen_sbdf_ti_is_arr ty <> 0 /\
-      nth_error h db = Some (Some cells) /\ elem_ptrs m cells /\ zlen cells <= int_max /\ h' = kill ob (kill db h)) \/
-  (exists ty cnt dp, obj_block h ob ty cnt (VPtr RIn dp) /\ 0 <= dp <= zlen m /\ Leaf.gen_sbdf_ti_is_arr ty = 0 /\ h' = kill ob h).
-
-Lemma obj_destroy_bs bv k sx m o h ob h' : destroys m h ob h' ->
-  exists iv pv, bsE prog_env (fbody prog_sbdf_obj_destroy) (fr [("object"%string, VCell ob 0); ("i"%string, VUndef); ("ptr"%string, VUndef)] bv k sx h m o)
-    (ONormal (fr [("object"%string, VCell ob 0); ("i"%string, iv); ("ptr"%string, pv)] bv k sx h' m o)).
-Proof.
-  intros [(db & ty & cells & data & H1 & H2 & H3 & H4 & H5 & H6 & H7 & ->)|(ty & cnt & dp & H1 & H2 & H3 & ->)].
-  - apply (obj_destroy_arr_bs bv k sx m o h ob db ty cells data VUndef VUndef H1 H2 H3 H4 H5 H6 H7).
-  - exists VUndef, VUndef. apply (obj_destroy_fixed_bs bv k sx m o h ob ty cnt (VPtr RIn dp) dp VUndef VUndef H1 eq_refl H2 H3).
-Qed.
-
-Theorem obj_destroy_source k sx m h ob h' : destroys m h ob h' ->
-  exists f0, forall f, (f0 <= f)%nat -> exists fin,
-    callC prog_env f prog_sbdf_obj_destroy [VCell ob 0] m k sx h = ONormal fin /\ inb fin = m /\ lookup cells_var (vars fin) = Some (VHeap h').
-Proof.
-  intros D. destruct (obj_destroy_bs (VInt 0) k sx m [] h ob h' D) as (iv & pv & B).
-  destruct (bsE_sound _ _ _ _ B) as (f0 & F). exists f0. intros f Hf. eexists. split; [apply F; exact Hf|]. split; reflexivity.
-Qed.
-
 (* released blocks stay released, and releasing one block leaves the others alone *)
 Lemma kill_other b c h : b <> c -> nth_error (kill b h) c = nth_error h c.
 Proof. intros Hn. unfold kill. destruct (set_nth_v b None h) eqn:E; [|reflexivity]. apply (set_nth_v_other h b c None l E Hn). Qed.
 Lemma kill_same b h x : nth_error h b = Some x -> nth_error (kill b h) b = Some None.
 Proof. intros H. unfold kill. destruct (set_nth_v_some h b x None H) as (l & E). rewrite E. apply (set_nth_v_same h b None l E). Qed.
 
-(* after the call the header is a released block: a second sbdf_obj_destroy (or any access) faults in this semantics *)
-Lemma destroys_released m h ob h' : destroys m h ob h' -> nth_error h' ob = Some None.
-Proof.
-  intros [(db & ty & cells & data & H1 & H2 & H3 & H4 & H5 & H6 & H7 & ->)|(ty & cnt & dp & H1 & H2 & H3 & ->)]; unfold obj_block in H1.
-  - apply (kill_same ob (kill db h) (Some [VInt ty; VInt (zlen cells); data])). rewrite kill_other by congruence. exact H1.
-  - apply (kill_same ob h _ H1).
-Qed.
-
-(* ================================================================== sbdf_va_destroy *)
-(* one optional sub-object: absent (null) - nothing happens; present - sbdf_obj_destroy's effect *)
-Definition destroys_opt (m : list Z) (h : heap) (ov : val) (h' : heap) : Prop :=
-  (as_ptr ov = VNull /\ h' = h) \/ (exists ob, as_ptr ov = VCell ob 0 /\ destroys m h ob h').
-
-Lemma va_destroy_bs bv k sx m o h vb ty enc v1 o1 o2 h1 h2 :
-  va_block h vb ty enc v1 o1 o2 -> destroys_opt m h o1 h1 -> destroys_opt m h1 o2 h2 ->
-  nth_error h1 vb = nth_error h vb -> nth_error h2 vb = nth_error h vb ->
-  bsE prog_env (fbody prog_sbdf_va_destroy) (fr [("handle"%string, VCell vb 0)] bv k sx h m o)
-    (ONormal (fr [("handle"%string, VCell vb 0)] bv k sx (kill vb h2) m o)).
-Proof.
-  intros Hv D1 D2 K1 K2. unfold va_block in Hv. cbn [fbody prog_sbdf_va_destroy]. unfold fr.
-  assert (Hv1 : nth_error h1 vb = Some (Some [VInt ty; VInt enc; VInt v1; o1; o2])) by (rewrite K1; exact Hv).
-  assert (Hv2 : nth_error h2 vb = Some (Some [VInt ty; VInt enc; VInt v1; o1; o2])) by (rewrite K2; exact Hv).
-  destruct (set_nth_v_some h2 vb _ None Hv2) as (h3 & E3).
-  assert (Hfin : kill vb h2 = h3) by (unfold kill; rewrite E3; reflexivity). rewrite Hfin.
-  eapply bsE_if; [evc; reflexivity|reflexivity|].
-  eapply bsE_seq.
-  { destruct D1 as [(N1 & ->)|(ob1 & P1 & D1)].
-    - eapply bsE_if; [evc; chk7; evc; cellrw Hv; evc; rewrite N1; reflexivity|reflexivity|apply bsE_skip].
-    - destruct (obj_destroy_bs bv k sx m o h ob1 h1 D1) as (iv & pv & B). unfold fr in B. cbn [app] in B.
-      eapply bsE_if; [evc; chk7; evc; cellrw Hv; evc; rewrite P1; reflexivity|reflexivity|].
-      eapply bsE_call_void; [reflexivity|evcc; chk7; evcc; cellrw Hv; evcc; rewrite P1; reflexivity|reflexivity|evcc; exact B|evcc; reflexivity]. }
-  eapply bsE_seq.
-  { destruct D2 as [(N2 & ->)|(ob2 & P2 & D2)].
-    - eapply bsE_if; [evc; chk7; evc; cellrw Hv1; evc; rewrite N2; reflexivity|reflexivity|apply bsE_skip].
-    - destruct (obj_destroy_bs bv k sx m o h1 ob2 h2 D2) as (iv & pv & B). unfold fr in B. cbn [app] in B.
-      eapply bsE_if; [evc; chk7; evc; cellrw Hv1; evc; rewrite P2; reflexivity|reflexivity|].
-      eapply bsE_call_void; [reflexivity|evcc; chk7; evcc; cellrw Hv1; evcc; rewrite P2; reflexivity|reflexivity|evcc; exact B|evcc; reflexivity]. }
-  eapply bsE_expr. evc. rewrite Hv2. evc. rewrite E3. evc. reflexivity.
-Qed.
-
-Theorem va_destroy_source k sx m h vb ty enc v1 o1 o2 h1 h2 :
-  va_block h vb ty enc v1 o1 o2 -> destroys_opt m h o1 h1 -> destroys_opt m h1 o2 h2 ->
-  nth_error h1 vb = nth_error h vb -> nth_error h2 vb = nth_error h vb ->
-  exists f0, forall f, (f0 <= f)%nat -> exists fin,
-    callC prog_env f prog_sbdf_va_destroy [VCell vb 0] m k sx h = ONormal fin /\ inb fin = m /\ lookup cells_var (vars fin) = Some (VHeap (kill vb h2)).
-Proof.
-  intros Hv D1 D2 K1 K2. destruct (bsE_sound _ _ _ _ (va_destroy_bs (VInt 0) k sx m [] h vb ty enc v1 o1 o2 h1 h2 Hv D1 D2 K1 K2)) as (f0 & F).
-  exists f0. intros f Hf. eexists. split; [apply F; exact Hf|]. split; reflexivity.
-Qed.
